@@ -18,6 +18,7 @@ type GField struct {
 	Name string `json:"name"`
 	Go   string `json:"go"`  // key of goTypes
 	Tag  string `json:"tag"` // gorm tag text
+	Anon bool   `json:"anon,omitempty"` // anonymous (embedded without a field name of its own)
 }
 
 var goTypes = map[string]reflect.Type{
@@ -40,6 +41,8 @@ var goTypes = map[string]reflect.Type{
 	"Dims": reflect.TypeOf(Dims{}), "Author": reflect.TypeOf(Author{}), "*Author": reflect.TypeOf((*Author)(nil)), "Deep": reflect.TypeOf(Deep{}),
 	"Flags": reflect.TypeOf(Flags{}), "*Flags": reflect.TypeOf((*Flags)(nil)),
 	"Addr": reflect.TypeOf(Addr{}), "*Addr": reflect.TypeOf((*Addr)(nil)),
+	"BaseA": reflect.TypeOf(BaseA{}), "*BaseA": reflect.TypeOf((*BaseA)(nil)), "BaseB": reflect.TypeOf(BaseB{}), "*BaseB": reflect.TypeOf((*BaseB)(nil)),
+	"BaseK": reflect.TypeOf(BaseK{}), "WrapA": reflect.TypeOf(WrapA{}), "*WrapA": reflect.TypeOf((*WrapA)(nil)),
 }
 
 var genTypes = map[string]reflect.Type{}
@@ -52,7 +55,7 @@ func registerGen(name string, spec []GField) {
 	}
 	fs := make([]reflect.StructField, len(spec))
 	for i, g := range spec {
-		fs[i] = reflect.StructField{Name: g.Name, Type: goTypes[g.Go], Tag: reflect.StructTag(`gorm:"` + g.Tag + `"`)}
+		fs[i] = reflect.StructField{Name: g.Name, Type: goTypes[g.Go], Tag: reflect.StructTag(`gorm:"` + g.Tag + `"`), Anonymous: g.Anon}
 	}
 	genTypes[name] = reflect.StructOf(fs)
 }
@@ -92,37 +95,81 @@ func genSpec(r *lib.Rng, id int) (string, []GField) {
 	var spec []GField
 	switch r.Intn(8) {
 	case 5: // key by name only, stored under another column name
-		spec = append(spec, GField{"ID", "uint", "column:uid"})
+		spec = append(spec, GField{Name: "ID", Go: "uint", Tag: "column:uid"})
 	case 6:
-		spec = append(spec, GField{"ID", "int64", "column:key_id"})
+		spec = append(spec, GField{Name: "ID", Go: "int64", Tag: "column:key_id"})
 	case 0:
-		spec = append(spec, GField{"ID", "uint", "primaryKey"})
+		spec = append(spec, GField{Name: "ID", Go: "uint", Tag: "primaryKey"})
 	case 1:
-		spec = append(spec, GField{"ID", "int64", "primaryKey"})
+		spec = append(spec, GField{Name: "ID", Go: "int64", Tag: "primaryKey"})
 	case 2:
-		spec = append(spec, GField{"ID", "uint32", "primaryKey"})
+		spec = append(spec, GField{Name: "ID", Go: "uint32", Tag: "primaryKey"})
 	case 3:
-		spec = append(spec, GField{"Key", "int64", "primaryKey;column:k"})
+		spec = append(spec, GField{Name: "Key", Go: "int64", Tag: "primaryKey;column:k"})
 	case 4: // composite key with a member named ID
-		spec = append(spec, GField{"ID", "int64", "primaryKey;autoIncrement:false"}, GField{"Locale", "string", "primaryKey"})
+		spec = append(spec, GField{Name: "ID", Go: "int64", Tag: "primaryKey;autoIncrement:false"}, GField{Name: "Locale", Go: "string", Tag: "primaryKey"})
 	default: // composite key without auto-increment
-		spec = append(spec, GField{"Code", "string", "primaryKey"}, GField{"Seq", "int32", "primaryKey;autoIncrement:false"})
+		spec = append(spec, GField{Name: "Code", Go: "string", Tag: "primaryKey"}, GField{Name: "Seq", Go: "int32", Tag: "primaryKey;autoIncrement:false"})
 	}
-	spec = append(spec, GField{"Mark", "string", "uniqueIndex"})
+	spec = append(spec, GField{Name: "Mark", Go: "string", Tag: "uniqueIndex"})
 	n := r.Range(3, 12)
 	for i := 0; i < n; i++ {
 		p := lib.Pick(r, fieldPool)
 		tag := strings.ReplaceAll(lib.Pick(r, p.Tags), "{c}", fmt.Sprintf("x%d", i))
-		spec = append(spec, GField{fmt.Sprintf("F%d", i), p.Go, tag})
+		spec = append(spec, GField{Name: fmt.Sprintf("F%d", i), Go: p.Go, Tag: tag})
+	}
+	// several fields mapped to ONE column: structs embedded anonymously (value / pointer / nested) or
+	// with the `embedded` tag and no prefix, and fields of the model itself that carry the Go name or
+	// the column of one of their leaves; every declaration order
+	if r.Chance(2, 5) {
+		nkey := len(spec) - n - 1 // the key fields stay in front
+		insert := func(g GField) {
+			k := nkey + r.Intn(len(spec)-nkey+1)
+			spec = append(spec[:k], append([]GField{g}, spec[k:]...)...)
+		}
+		bases := []string{"BaseA", "BaseB", "WrapA"}
+		lib.Shuffle(r, bases)
+		if spec[0].Name == "ID" && spec[0].Tag == "primaryKey" && spec[0].Go == "uint" && r.Bool() {
+			// the key itself comes from an anonymously embedded struct (gorm.Model style)
+			spec[0] = GField{Name: "BaseK", Go: "BaseK", Anon: true}
+		}
+		for _, b := range bases[:r.Range(1, 2)] {
+			switch r.Intn(4) {
+			case 0, 1:
+				insert(GField{Name: b, Go: b, Anon: true})
+			case 2:
+				insert(GField{Name: b, Go: "*" + b, Anon: true})
+			default:
+				insert(GField{Name: "In" + b, Go: b, Tag: "embedded"})
+			}
+		}
+		colliders := []GField{
+			{Name: "Title", Go: "string"}, {Name: "Title", Go: "string", Tag: "column:headline"}, {Name: "Note", Go: "string"},
+			{Name: "Note", Go: "*string"}, {Name: "Rank", Go: "int64"}, {Name: "Rank", Go: "int16"}, {Name: "Qty", Go: "int32"}, {Name: "Depth", Go: "int16"},
+			{Name: "Head", Go: "string", Tag: "column:title"}, {Name: "Memo", Go: "string", Tag: "column:note"}, {Name: "Pos", Go: "int64", Tag: "column:rank"},
+			{Name: "Hl", Go: "string", Tag: "column:headline"}, {Name: "Amount", Go: "int32", Tag: "column:qty"},
+		}
+		used := map[string]bool{}
+		for i := r.Range(1, 3); i > 0; i-- {
+			c := lib.Pick(r, colliders)
+			if !used[c.Name] {
+				used[c.Name] = true
+				insert(c)
+			}
+		}
 	}
 	// the marker somewhere in the middle
 	if r.Bool() {
 		k := 2 + r.Intn(len(spec)-2)
-		m := 1
-		if spec[1].Name != "Mark" {
-			m = 2
+		m := 0
+		for i, g := range spec {
+			if g.Name == "Mark" {
+				m = i
+			}
 		}
-		spec[m], spec[k] = spec[k], spec[m]
+		if k > m {
+			spec[m], spec[k] = spec[k], spec[m]
+		}
 	}
 	return fmt.Sprintf("gen_%d", id), spec
 }
